@@ -18,8 +18,11 @@
    leaves behind.
 
    The ODE statement (at most one) defines the amount atom a1 as an opaque
-   function of the value of its rate expression at that point (ode.t / ode.f)
-   and of the dose leaf amt.
+   function of the values, at that point, of its elimination rate AND of the
+   zero-order input of a second, dose-less compartment that feeds the first
+   (ode.t / ode.f = <<rate value, input value>> per truth value of the guard)
+   and of the dose leaf amt: the ODE statement reads earlier definitions through
+   a flow rate and through a compartment attribute.
 
    Layers.
      reference  : Step / RunSeq (interpreter), DepLo / DepUp, RefReassign,
@@ -94,7 +97,8 @@ EvalF(x, e, br) == Mk(LAMBDA b : (IF b > 5 THEN x[b] ELSE 0) + Term(x, e, 1, br,
 \* ---------------------------------------------------------------- statements
 \* [k : "asg"|"ode", lhs, g : guarded, t : form, f : form, ra : atoms of t and f]   (g = FALSE => t = f)
 \*   asg:  lhs = Piecewise((t, x1 > 0), (f, True))   or   lhs = t
-\*   ode:  one compartment, elimination rate t, bolus dose amt; defines the amount a1 (lhs = 5)
+\*   ode:  CENTRAL with bolus dose amt and elimination rate t, defines the amount a1 (lhs = 5); when f # Zero a second
+\*         compartment EFFECT WITHOUT a dose, with zero-order input f, flowing into CENTRAL (g = FALSE, but t # f in general)
 IsOde(st) == st.k = "ode"
 HasOde(P) == \E i \in 1..Len(P) : IsOde(P[i])
 AtomsOf(x, y) == (Supp(x) \cup Supp(y)) \ {One}
@@ -111,11 +115,12 @@ NoReassign(P) == \A i, j \in 1..Len(P) : i # j => P[i].lhs # P[j].lhs
 UPair(v) == Pair(Unit(v), Unit(v))
 InitEnv == <<UPair(1), UPair(2), UPair(3), UPair(4), UPair(5)>>
 InitDep == <<{1}, {2}, {3}, {4}, {5}>>
-NoOde == [set |-> FALSE, t |-> Zero, f |-> Zero]
+NoOde == [set |-> FALSE, t |-> <<Zero, Zero>>, f |-> <<Zero, Zero>>]
+OdeVal(e, st) == Pair(<<EvalF(st.t, e, 1), EvalF(st.f, e, 1)>>, <<EvalF(st.t, e, 2), EvalF(st.f, e, 2)>>)
 DepOf(d, a) == IF a <= 5 THEN d[a] ELSE IF a = One THEN {} ELSE {a}
 ExecVal(e, st) == Pair(EvalF(st.t, e, 1), IF st.g THEN EvalF(st.f, e, 2) ELSE EvalF(st.t, e, 2))   \* the value the statement computes
 ExecEnv(e, st) == IF IsOde(st) THEN e ELSE [e EXCEPT ![st.lhs] = ExecVal(e, st)]
-ExecOde(o, e, st) == IF IsOde(st) THEN LET v == ExecVal(e, st) IN [set |-> TRUE, t |-> v.t, f |-> v.f] ELSE o
+ExecOde(o, e, st) == IF IsOde(st) THEN LET v == OdeVal(e, st) IN [set |-> TRUE, t |-> v.t, f |-> v.f] ELSE o
 ExecDep(d, st) == [d EXCEPT ![st.lhs] = UNION {DepOf(d, a) : a \in RhsAtoms(st)}
                                          \cup (IF st.g THEN {X1} ELSE {})
                                          \cup (IF IsOde(st) THEN {Dose} ELSE {})]
@@ -127,7 +132,7 @@ Step(st) == /\ pc' = pc + 1
             /\ env' = ExecEnv(env, st)
             /\ ode' = ExecOde(ode, env, st)
             /\ dep' = ExecDep(dep, st)
-            /\ vals' = Append(vals, ExecVal(env, st))
+            /\ vals' = Append(vals, IF IsOde(st) THEN OdeVal(env, st) ELSE ExecVal(env, st))
             \* the textual "reads an earlier definition of" relation (every earlier definition, shadowed or not)
             /\ reads' = reads \cup {<<pc + 1, j>> : j \in {i \in 1..pc : prog[i].lhs \in RhsAtoms(st)}}
 
@@ -135,7 +140,7 @@ Step(st) == /\ pc' = pc + 1
 RECURSIVE RunSeq(_, _)
 RunSeq(P, n) == IF n = 0 THEN [env |-> InitEnv, ode |-> NoOde, vals |-> <<>>]
                 ELSE LET r == RunSeq(P, n - 1)
-                         v == ExecVal(r.env, P[n])
+                         v == IF IsOde(P[n]) THEN OdeVal(r.env, P[n]) ELSE ExecVal(r.env, P[n])
                      IN [env |-> IF IsOde(P[n]) THEN r.env ELSE [r.env EXCEPT ![P[n].lhs] = v],
                          ode |-> IF IsOde(P[n]) THEN [set |-> TRUE, t |-> v.t, f |-> v.f] ELSE r.ode,
                          vals |-> Append(r.vals, v)]
@@ -167,16 +172,18 @@ Guarded(lhs, b, els) == /\ Room /\ NGuards(prog) < MaxGuards
                                ff == IF els = "old" THEN Unit(lhs) ELSE Unit(One)
                                st == [k |-> "asg", lhs |-> lhs, g |-> TRUE, t |-> tt, f |-> ff, ra |-> AtomsOf(tt, ff)]
                            IN tt # ff /\ Canon(st) /\ Step(st)
-OdeStmt(b) == /\ Room /\ WithODE /\ ~HasOde(prog) /\ Weight(b) > 0
-              /\ LET st == [k |-> "ode", lhs |-> Amt, g |-> FALSE, t |-> b, f |-> b, ra |-> AtomsOf(b, b)]
-                 IN Canon(st) /\ Step(st)
+\* (the rate is one atom or, without an input compartment, a sum; the input at most one atom)
+OdeStmt(b, b2) == /\ Room /\ WithODE /\ ~HasOde(prog) /\ Weight(b) > 0 /\ Weight(b) + Weight(b2) <= MaxUses
+                  /\ (Weight(b2) = 0 => Weight(b) = 1 \/ (pc + 1) % 2 = 0)
+                  /\ LET st == [k |-> "ode", lhs |-> Amt, g |-> FALSE, t |-> b, f |-> b2, ra |-> AtomsOf(b, b2)]
+                     IN Canon(st) /\ Step(st)
 
 DefinedSyms == {prog[i].lhs : i \in 1..Len(prog)} \cap Syms
 Bags == IF ChainMode THEN {Unit(a) : a \in {LeafOf(pc + 1)} \cup DefinedSyms}
         ELSE BagsUpTo(UseAtoms(pc + 1), MaxUses)
 DoAssign == Room /\ \E lhs \in Syms, b \in Bags : Assign(lhs, b)
 DoGuarded == Room /\ NGuards(prog) < MaxGuards /\ \E lhs \in Syms, b \in Bags, els \in {"old", "one"} : Guarded(lhs, b, els)
-DoOde == Room /\ WithODE /\ ~HasOde(prog) /\ \E b \in Bags : OdeStmt(b)
+DoOde == Room /\ WithODE /\ ~HasOde(prog) /\ \E b \in Bags, b2 \in Bags : OdeStmt(b, b2)
 Next == DoAssign \/ DoGuarded \/ DoOde
 Spec == Init /\ [][Next]_vars
 
@@ -189,7 +196,9 @@ RefFind(P, s) == LET i == LastDef(P, s) IN IF i > 0 /\ ~IsOde(P[i]) THEN i ELSE 
 \* dataflow closure (dep, maintained by the machine).  Always  lower \subseteq reported ;  reported restricted to
 \* the leaves  \subseteq upper  when no symbol is assigned twice.
 ValSupp(v) == ((Supp(v.t) \cup Supp(v.f)) \ {One}) \cup (IF v.t # v.f THEN {X1} ELSE {})
-OdeSupp(o) == IF o.set THEN ValSupp(o) \cup {Dose} ELSE {Amt}
+OdeSupp(o) == IF o.set THEN ((Supp(o.t[1]) \cup Supp(o.t[2]) \cup Supp(o.f[1]) \cup Supp(o.f[2])) \ {One})
+                              \cup (IF o.t # o.f THEN {X1} ELSE {}) \cup {Dose}
+              ELSE {Amt}
 DepLoOf(e, o, s) == IF s = Amt THEN OdeSupp(o)
                     ELSE LET d == ValSupp(e[s]) IN IF Amt \in d THEN (d \ {Amt}) \cup OdeSupp(o) ELSE d
 DepLo(s) == DepLoOf(env, ode, s)
@@ -323,7 +332,9 @@ T6_Subs == P1 \in UsedLeaves(prog) => \A b \in {P2} :    \* (nothing to rename o
               LET Q == RefSubs(prog, P1, b)
                   r == RunSeq(Q, Len(Q))
               IN /\ \A s \in Vars : r.env[s] = RenV(env[s], P1, b)
-                 /\ r.ode.set = ode.set /\ (ode.set => r.ode.t = RenF(ode.t, P1, b) /\ r.ode.f = RenF(ode.f, P1, b))
+                 /\ r.ode.set = ode.set
+                 /\ ode.set => /\ r.ode.t = <<RenF(ode.t[1], P1, b), RenF(ode.t[2], P1, b)>>
+                               /\ r.ode.f = <<RenF(ode.f[1], P1, b), RenF(ode.f[2], P1, b)>>
 \* T7: the leaves of the dataflow closure of all symbols are used leaves
 T7_Used == \A s \in QSyms : (DepUp(s) \cap TrueLeaves) \subseteq UsedLeaves(prog)
 
@@ -349,7 +360,7 @@ RmJ == {[k |-> x[1], S |-> Names(x[2]), tr |-> RemoveImpl(prog, reads, x[2], x[1
         x \in {y \in (1..Len(prog)) \X RmSets : RmPre(prog, y[2], y[1])}}
 Case == [n |-> Len(prog), ode |-> HasOde(prog), nore |-> NoReassign(prog),
          prog |-> ProgJ(prog),
-         odeval |-> [set |-> ode.set, t |-> Sparse(ode.t), f |-> Sparse(ode.f)],
+         odeval |-> [set |-> ode.set, t |-> Sparse(ode.t[1]), f |-> Sparse(ode.f[1]), it |-> Sparse(ode.t[2]), if |-> Sparse(ode.f[2])],
          sym |-> {SymJ(s) : s \in QSyms},
          rm |-> RmJ,
          ra |-> {[s |-> Name[s], p |-> ProgJ(RefReassign(prog, s, RaExpr))] : s \in Syms},
